@@ -155,6 +155,26 @@ class Gen(object):
         h, an = self.t.choice(cands)
         return N('FieldAccessNode', handle=h, name=an)
 
+    def where_expr(self, env, cls):
+        """mostly a comparison on an attribute of `selected`, so that the clause really filters"""
+        t = self.t
+        if t.pick(5) == 0:
+            return self.expr(env, 'bool', 2, selected_cls=cls)
+        an, at = t.choice(ATTRS[cls])
+        sel = N('FieldAccessNode', handle=N('SelectedAccessNode'), name=an)
+        if at == 'int':
+            rhs = self.expr(env, 'int', 1) if t.flag() else N('IntegerNode', value=t.choice(['0', '1', '2', '3']))
+            c = N('BinaryOperationNode', left=sel, operator=t.choice(['<', '<=', '>', '>=', '==', '!=']), right=rhs)
+        elif at == 'str':
+            c = N('BinaryOperationNode', left=sel, operator=t.choice(['==', '!=']), right=N('StringNode', value=t.choice(['""', '"a"', '"b"'])))
+        elif at == 'bool':
+            c = sel if t.flag() else N('UnaryOperationNode', operator='not', operand=sel)
+        else:
+            c = N('BinaryOperationNode', left=sel, operator=t.choice(['<', '>']), right=N('RealNode', value=t.choice(['0.0', '1.0'])))
+        if t.pick(4) == 0:
+            c = N('BinaryOperationNode', left=c, operator=t.choice(['and', 'or']), right=self.expr(env, 'bool', 1, selected_cls=cls))
+        return c
+
     def expr(self, env, ty, depth=2, selected_cls=None):
         t = self.t
         k = t.pick(10)
@@ -298,10 +318,10 @@ class Gen(object):
             node = N('SelectFromWhereNode' if where else 'SelectFromNode', cardinality='many' if many else 'any',
                      variable_name=name, key_letter=cls)
             if where:
-                node['where_clause'] = self.expr(env, 'bool', 2, selected_cls=cls)
+                node['where_clause'] = self.where_expr(env, cls)
                 self.features.add('where')
             env.set(name, {'ty': 'set' if many else 'inst', 'cls': cls, 'nonempty': False})
-            return [node]
+            return [node] + self.observe(env, name)
         if k in (8, 9, 10):      # select related
             starts = env.vars(lambda i: (i['ty'] == 'inst' and i.get('nonempty')) or i['ty'] == 'set')
             if not starts:
@@ -322,14 +342,14 @@ class Gen(object):
             if single and t.pick(4) == 0:
                 card = 'many'
             name = env.fresh(cls.lower() + ('s_' if card == 'many' else '_'))
-            where = t.pick(3) == 0
+            where = t.flag()
             node = N('SelectRelatedWhereNode' if where else 'SelectRelatedNode', cardinality=card, variable_name=name,
                      handle=self.var(h), navigation_chain=N('NavigationListNode', children=steps))
             if where:
-                node['where_clause'] = self.expr(env, 'bool', 2, selected_cls=cls)
+                node['where_clause'] = self.where_expr(env, cls)
                 self.features.add('where')
             env.set(name, {'ty': 'set' if card == 'many' else 'inst', 'cls': cls, 'nonempty': False})
-            return [node]
+            return [node] + self.observe(env, name)
         if k in (11, 12):        # relate (fresh instances keep the multiplicity rules satisfied)
             fc, tc, rel, ph = t.choice(RELATES)
             existing = self.nonempty_insts(env, tc)
@@ -350,8 +370,14 @@ class Gen(object):
                 l, p5 = self.create(env, 'L')
                 first, second = (x, y) if t.flag() else (y, x)
                 self.features.add('relate-using')
-                return p3 + p4 + p5 + [N('RelateUsingNode', from_variable_name=first, to_variable_name=second, rel_id='R4',
-                                         phrase='', using_variable_name=l)]
+                out = p3 + p4 + p5 + [N('RelateUsingNode', from_variable_name=first, to_variable_name=second, rel_id='R4',
+                                        phrase='', using_variable_name=l)]
+                if t.pick(3) == 0:
+                    f2, s2 = (first, second) if t.flag() else (second, first)
+                    out.append(N('UnrelateUsingNode', from_variable_name=f2, to_variable_name=s2, rel_id='R4', phrase='',
+                                 using_variable_name=l))
+                    self.features.add('unrelate-using')
+                return out
             return pre + [N('RelateNode', from_variable_name=a, to_variable_name=b, rel_id='R%d' % rel,
                             phrase=("'%s'" % ph) if ph else '')]
         if k == 13:              # guarded unrelate
@@ -398,7 +424,8 @@ class Gen(object):
             inc = N('AssignmentNode', variable_access=self.var(c),
                     expression=N('BinaryOperationNode', left=self.var(c), operator='+', right=N('IntegerNode', value='1')))
             cond = N('BinaryOperationNode', left=self.var(c), operator='<', right=N('IntegerNode', value=bound))
-            blk = self.inner_block(env, depth, True, pre=[inc])
+            blk = self.inner_block(env, depth, True, pre=[inc] + self.acc_step(env, '100'))
+            blk['statement_list']['children'].extend(self.acc_step(env, '1'))
             self.features.add('while')
             if in_loop:
                 self.features.add('nested-loop')
@@ -416,7 +443,7 @@ class Gen(object):
             ev = env.fresh('e')
             env.push()
             env.blocks[-1][ev] = {'ty': 'inst', 'cls': env.get(sv)['cls'], 'nonempty': True}
-            body_ = self.stmts(env, depth - 1, True)
+            body_ = self.acc_step(env, '100') + self.stmts(env, depth - 1, True) + self.acc_step(env, '1')
             env.pop()
             self.features.add('foreach')
             if in_loop:
@@ -451,6 +478,29 @@ class Gen(object):
                 return c
         return self.stmt_fallback(env)
 
+    def observe(self, env, name):
+        """make the outcome of a selection visible in the accumulator"""
+        if env.get('acc') is None or self.t.pick(3) == 0:
+            return []
+        info = env.get(name)
+        A = lambda e: N('AssignmentNode', variable_access=self.var('acc'),
+                        expression=N('BinaryOperationNode', left=self.var('acc'), operator='+', right=e))
+        out = [A(N('UnaryOperationNode', operator='cardinality', operand=self.var(name)))]
+        ints = [an for an, at in ATTRS[info['cls']] if at == 'int']
+        if info['ty'] == 'inst' and ints:
+            out.append(N('IfNode', expression=N('UnaryOperationNode', operator='not_empty', operand=self.var(name)),
+                         block=block([A(N('BinaryOperationNode', left=N('FieldAccessNode', handle=self.var(name), name=ints[0]),
+                                           operator='*', right=N('IntegerNode', value='3')))]),
+                         elif_list=N('ElIfListNode', children=[]), else_clause=None))
+        return out
+
+    def acc_step(self, env, k):
+        """acc = acc + k : makes the number of (complete) loop iterations observable in the result"""
+        if env.get('acc') is None:
+            return []
+        return [N('AssignmentNode', variable_access=self.var('acc'),
+                  expression=N('BinaryOperationNode', left=self.var('acc'), operator='+', right=N('IntegerNode', value=k)))]
+
     def stmt_fallback(self, env):
         return self.assign_scalar(env)
 
@@ -459,17 +509,39 @@ class Gen(object):
 
 
 def program(ints, max_stmts=12, max_depth=3):
-    """-> (BodyNode AST ending in a return of an integer summary, feature set)"""
+    """-> (BodyNode AST, feature set).  The body starts with an accumulator, ends by writing the scalars still in
+    scope into a fresh instance (so that they show up in the final population) and returns an integer summary."""
     g = Gen(Tape(ints), max_stmts, max_depth)
     env = Env()
-    stmts = g.stmts(env, max_depth, False, top=True, minimum=2)
-    # a final return that depends on the variables still in scope
-    ints_ = env.vars(lambda i: i['ty'] == 'int')
-    e = N('IntegerNode', value='0')
-    for v in ints_[:4]:
+    env.set('acc', {'ty': 'int', 'ro': True})
+    stmts = [N('AssignmentNode', variable_access=g.var('acc'), expression=N('IntegerNode', value='0'))]
+    # bind parts of the initial population, so that navigations start from linked instances
+    for _ in range(g.t.pick(4)):
+        cls = g.t.choice(CLASSES)
+        name = env.fresh(cls.lower() + 's_')
+        stmts.append(N('SelectFromNode', cardinality='many', variable_name=name, key_letter=cls))
+        env.set(name, {'ty': 'set', 'cls': cls, 'nonempty': False})
+    stmts += g.stmts(env, max_depth, False, top=True, minimum=2)
+    e = g.var('acc')
+    for v in env.vars(lambda i: i['ty'] == 'int' and not i.get('ro'))[:4]:
         e = N('BinaryOperationNode', left=e, operator='+', right=g.var(v))
     for v in env.vars(lambda i: i['ty'] in ('inst', 'set'))[:3]:
         e = N('BinaryOperationNode', left=e, operator='+',
               right=N('UnaryOperationNode', operator='cardinality', operand=g.var(v)))
-    stmts.append(N('ReturnNode', expression=e))
+    stmts.append(N('CreateObjectNode', variable_name='zz_dump', key_letter='A'))
+    F = lambda a: N('FieldAccessNode', handle=g.var('zz_dump'), name=a)
+    stmts.append(N('AssignmentNode', variable_access=F('n'), expression=e))
+    for ty, attr in (('str', 's'), ('real', 'r'), ('bool', 'b')):
+        vs = env.vars(lambda i: i['ty'] == ty)
+        if vs:
+            val = g.var(vs[0])
+            for v in vs[1:3]:
+                if ty == 'str':
+                    val = N('BinaryOperationNode', left=val, operator='+', right=g.var(v))
+                elif ty == 'real':
+                    val = N('BinaryOperationNode', left=val, operator='-', right=g.var(v))
+                else:
+                    val = N('BinaryOperationNode', left=val, operator='!=', right=g.var(v))
+            stmts.append(N('AssignmentNode', variable_access=F(attr), expression=val))
+    stmts.append(N('ReturnNode', expression=F('n')))
     return N('BodyNode', block=block(stmts)), g.features
